@@ -991,6 +991,100 @@ fn judge(case: &Case, tgt: Tgt, pipe: Option<&XPipe>, out: &rssl::CompiledPipeli
     (obs, fails)
 }
 
+// ------------------------------------------------------------------------------------------------ C05.layers: what the typer builds
+
+/// the layer chain of a type id as the real type registry holds it: `M` modifier, `A<n>` / `A?` array, `O:<Kind>` object,
+/// `X` anything else (outermost first, joined by `.`)
+fn layer_chain(m: &rssl::ir::Module, id: rssl::ir::TypeId) -> String {
+    use rssl::ir::TypeLayer;
+    let mut parts = Vec::new();
+    let mut cur = id;
+    for _ in 0..64 {
+        match m.type_registry.get_type_layer(cur) {
+            TypeLayer::Modifier(_, inner) => {
+                parts.push("M".to_string());
+                cur = inner;
+            }
+            TypeLayer::Array(inner, len) => {
+                parts.push(match len {
+                    Some(n) => format!("A{}", n),
+                    None => "A?".to_string(),
+                });
+                cur = inner;
+            }
+            TypeLayer::Object(ot) => {
+                let d = format!("{:?}", ot);
+                parts.push(format!("O:{}", d.split(|c| c == '(' || c == '<').next().unwrap_or("")));
+                break;
+            }
+            _ => {
+                parts.push("X".to_string());
+                break;
+            }
+        }
+    }
+    parts.join(".")
+}
+
+/// C05.layers: the resource declarations of the request alone, through the real preprocess + parse + type_check; the
+/// observation lists the layer chain of every resource global.  Oracle (the hypothesis of `descriptor_kind_count_from_layers`):
+/// no modifier layer directly around a modifier layer.
+fn run_layers(case: &Case, out: &mut Out, hist: &mut Hist) {
+    let reduced = Case { nstatics: 0, layout: 0, inits: vec![], res: case.res.clone(), helpers: vec![], entries: vec![], pipes: vec![] };
+    let req = format!("C05.layers\t-\t-\t{}", reduced.encode());
+    let src = reduced.render();
+    hist.add("stream=layers");
+    let r = guard(|| {
+        let mut sm = rssl::text::SourceManager::new();
+        let mut inc = MemFiles(vec![("main.rssl".to_string(), src.clone())]);
+        let tokens = rssl::preprocess::preprocess("main.rssl", &mut sm, &mut inc, &[]).map_err(|_| "preprocess".to_string())?;
+        let tokens = rssl::preprocess::prepare_tokens(&tokens);
+        let ast = rssl::parser::parse(&tokens).map_err(|_| "parse".to_string())?;
+        rssl::typer::type_check(&ast).map_err(|e| format!("{:?}", e.0).chars().take_while(|c| c.is_alphanumeric()).collect::<String>())
+    });
+    let module = match r {
+        Ok(Ok(m)) => m,
+        Ok(Err(e)) => {
+            out.case(&req, &format!("rejected:{}", e), "SKIP:front end rejects the declarations");
+            return;
+        }
+        Err(p) => {
+            out.case(&req, &format!("panic:{}", p), "SKIP:panic (C08)");
+            return;
+        }
+    };
+    // the registry starts with the intrinsic constants and `lds_payload`; the declared resources are its tail
+    let wanted: Vec<&XRes> = reduced.res.iter().filter(|r| r.kind != "cbuffer").collect();
+    let all: Vec<&rssl::ir::GlobalVariable> = module.global_registry.iter().collect();
+    let globals: Vec<&rssl::ir::GlobalVariable> = all[all.len().saturating_sub(wanted.len())..].to_vec();
+    if globals.len() != wanted.len() || globals.iter().zip(wanted.iter()).any(|(g, r)| g.name.node != r.name) {
+        let names: Vec<&str> = globals.iter().map(|g| g.name.node.as_str()).collect();
+        out.case(&req, &format!("globals-not-attributable:{}", names.join(",")), "SKIP:registry order differs from declaration order");
+        return;
+    }
+    let mut parts = Vec::new();
+    let mut fail: Option<String> = None;
+    for (g, r) in globals.iter().zip(wanted.iter()) {
+        let chain = layer_chain(&module, g.type_id);
+        hist.add(&format!("chain={}", chain.split(':').next().unwrap_or("")));
+        if chain.contains("M.M") && fail.is_none() {
+            fail = Some(format!("modifier-on-modifier `{}` has the chain {}", r.name, chain));
+        }
+        // (the implicit const of an extern global sits under the declarator's array layers: compared with the model, which
+        // builds the chain the same way; the theorems do not need it)
+        let under_arrays: Vec<&str> = chain.split('.').skip_while(|l| l.starts_with('A')).collect();
+        if !r.stat && under_arrays.first() != Some(&"M") {
+            hist.add("chain-extern-without-modifier");
+        }
+        parts.push(format!("{}={}", r.name, chain));
+    }
+    let oracle = match fail {
+        Some(f) => format!("FAIL:{}", f),
+        None => "ok".to_string(),
+    };
+    out.case(&req, &format!("L[{}]", parts.join(";")), &oracle);
+}
+
 fn parse_mode(s: &str) -> Option<Mode> {
     if s == "all" {
         Some(Mode::All)
@@ -1495,6 +1589,13 @@ pub fn run(args: &Args, out: &mut Out) {
     if let Some(lines) = args.request_lines() {
         for line in lines {
             let f: Vec<&str> = line.split('\t').collect();
+            if f.len() == 8 && f[0] == "C05.layers" {
+                match Case::decode(&f[3..]) {
+                    Some(case) => run_layers(&case, out, &mut hist),
+                    None => out.case(&line, "bad-request", "SKIP:bad request"),
+                }
+                continue;
+            }
             if f.len() != 8 || f[0] != "C05.meta" {
                 continue;
             }
@@ -1535,6 +1636,8 @@ pub fn run(args: &Args, out: &mut Out) {
             }
             run_case(&case, tgt, &Mode::NoPipeline, out, &mut hist);
         }
+        // what the typer builds for the declared types (target independent)
+        run_layers(&case, out, &mut hist);
     }
     // name sweep: every name the target languages reserve, as an entry point and as a resource name
     // (most are rejected by the front end: those cases are skipped; the accepted ones must keep metadata and source in step)
